@@ -56,8 +56,11 @@ class _W:
             pass
 
 
-def run(fn, items, timeout_s=20.0, nproc=None):
+def run(fn, items, timeout_s=20.0, nproc=None, max_timeouts=10):
+    """After max_timeouts watchdog timeouts the remaining items are not started ({'skipped': True}): the violation is
+    established and every further hang would cost timeout_s of a worker."""
     n = len(items)
+    n_timeouts = 0
     res = [None] * n
     if n == 0:
         return res
@@ -69,6 +72,12 @@ def run(fn, items, timeout_s=20.0, nproc=None):
         while done < n:
             progressed = False
             for k, w in enumerate(workers):
+                if w.cur is None and nxt < n and n_timeouts >= max_timeouts:
+                    res[nxt] = {"skipped": True}
+                    nxt += 1
+                    done += 1
+                    progressed = True
+                    continue
                 if w.cur is None and nxt < n:
                     w.cur, w.t0 = nxt, time.time()
                     w.parent.send((nxt, items[nxt]))
@@ -96,6 +105,7 @@ def run(fn, items, timeout_s=20.0, nproc=None):
                         progressed = True
                     elif time.time() - w.t0 > timeout_s:
                         res[w.cur] = {"timeout": timeout_s}
+                        n_timeouts += 1
                         w.kill()
                         workers[k] = _W(ctx, fn)
                         done += 1
@@ -133,11 +143,17 @@ def run_chunked(fn, items, timeout_s=20.0, nproc=None, chunk=40):
     if n <= chunk * 2:
         return run(fn, items, timeout_s, nproc)
     chunks = [items[i:i + chunk] for i in range(0, n, chunk)]
-    cres = run(_Chunked(fn), chunks, timeout_s, nproc)
+    cres = run(_Chunked(fn), chunks, timeout_s, nproc, max_timeouts=6)
     res = []
+    redone = 0
     for c, r in zip(chunks, cres):
         if isinstance(r, list) and len(r) == len(c):
             res.extend(r)
+        elif isinstance(r, dict) and r.get("skipped"):
+            res.extend([{"skipped": True}] * len(c))
+        elif redone >= 6:
+            res.extend([{"skipped": True}] * len(c))
         else:
-            res.extend(run(fn, c, timeout_s, nproc))
+            redone += 1
+            res.extend(run(fn, c, timeout_s, nproc, max_timeouts=3))
     return res
